@@ -40,11 +40,11 @@ func (X *Exec) execInstr(fr *Frame, ins ssa.Instruction, st *State) {
 			}
 			delete(st.CellAddr, addr.Cell)
 		}
+		X.applyStoreHooks(fr, st, i, addr, v) // before the store: the field still has its old value
 		X.store(st, addr, X.asTerm(st, v, deref(i.Addr.Type())))
 		if v.Clo != nil && v.T != nil {
 			st.Clos[v.T] = v.Clo
 		}
-		X.applyStoreHooks(fr, st, i, addr, v)
 	case *ssa.UnOp:
 		X.execUnOp(fr, i, st)
 	case *ssa.BinOp:
